@@ -412,6 +412,7 @@ fn run_explore(spec: &StreamSpec, bound: u32, full_menu_limit: usize, max_exec: 
 }
 
 pub fn run(ctx: &Ctx) {
+    ctx.enable_trace_pass(ctx.tier.pick(3000u64, 30000u64));
     ctx.set_rule("case = (byte stream, schedule of read results); streams: all sequences of 1..3 messages over an 8-message alphabet (incl. a complete but unparsable 4-byte message), every truncation, hostile length fields, all short strings over a 7-symbol alphabet; schedules: ALL compositions of the stream into read results for short streams, all choice sequences with at most d deviations (short reads of every size, Interrupted) otherwise, all uniform chunk sizes, single Interrupted placements; a state is (stream, bytes delivered, messages emitted, deviations used) at a choice point; oracle = the harness's own cutter + dlt_message on each piece");
     ctx.assume("the reader is built with with_capacity(65551, 65551, ..) for bulk exploration (std zero-fills the 10 MiB buffer of `new` for a custom Read; 520 us per execution): a d<=1 subset uses DltMessageReader::new");
     ctx.assume("for streams longer than 64 bytes the menu of short-read sizes is the boundary set {1..5,15..22,255,256,4095,4096,65534..65536,max-5..max-1,max/2}, not every size");
